@@ -148,14 +148,25 @@ type Outcome struct {
 
 // LinkInfo is the transport-boundary view of one link incarnation.
 type LinkInfo struct {
-	ID   int
-	Mode memnet.Mode
-	Log  []memnet.Record
+	ID       int
+	Mode     memnet.Mode
+	Log      []memnet.Record
+	FailedVT time.Time // zero while healthy
 }
 
 // ResumeCompleted reports whether the stream's resume exchange finished on the given link: the client wrote a resume
 // request for the stream and read a successful response with the same request id.
 func (o *Outcome) ResumeCompleted(stream uuid.UUID, link int) bool {
+	return o.resumeCompleted(stream, link, true)
+}
+
+// ResumeResponseRead is the weaker predicate: the client's transport read a successful resume response for the stream on
+// that link, possibly at the very instant the link died.
+func (o *Outcome) ResumeResponseRead(stream uuid.UUID, link int) bool {
+	return o.resumeCompleted(stream, link, false)
+}
+
+func (o *Outcome) resumeCompleted(stream uuid.UUID, link int, strict bool) bool {
 	for _, li := range o.LinkInfos {
 		if li.ID != link {
 			continue
@@ -179,6 +190,12 @@ func (o *Outcome) ResumeCompleted(stream uuid.UUID, link int) bool {
 		}
 		for _, r := range li.Log {
 			if r.Dir == memnet.S2C && r.OK {
+				// A response read at the very (virtual) instant the link died does not count: whether the client finished
+				// the exchange (registered the stream on that connection) before the connection went away is a matter of
+				// scheduling the transport log cannot see - for the client that exchange may have been cut.
+				if strict && !li.FailedVT.IsZero() && !r.VT.Before(li.FailedVT) {
+					continue
+				}
 				switch m := r.Msg.(type) {
 				case *message.UpstreamResumeResponse:
 					if reqs[uint32(m.RequestID)] && m.ResultCode == message.ResultCodeSucceeded {
@@ -797,7 +814,7 @@ func Run(s Scenario) *Outcome {
 	o.Links = len(w.Net.Links())
 	o.DialStacks = w.Net.DialStacks
 	for _, l := range w.Net.Links() {
-		o.LinkInfos = append(o.LinkInfos, LinkInfo{ID: l.ID, Mode: l.Mode(), Log: l.Log()})
+		o.LinkInfos = append(o.LinkInfos, LinkInfo{ID: l.ID, Mode: l.Mode(), Log: l.Log(), FailedVT: l.FailedTime()})
 	}
 	o.Dials = w.Net.Dials()
 	for _, lc := range w.B.LinkCtxs() {
